@@ -252,7 +252,11 @@ func (c *Ctx) makeCall(x *ast.CallExpr, st *State) Val {
 		} else {
 			c.oblige(st, "safe.make", c.pos(x.Pos()), c.leIdx(c.ilit(0), n.T), "make: len >= 0")
 		}
-		c.allocs = append(c.allocs, AllocRec{Size: cp.T, Guard: st.guard, Pos: c.pos(x.Pos()), ElemBytes: elemBytes(u.Elem())})
+		rec := AllocRec{Size: cp.T, Guard: st.guard, Pos: c.pos(x.Pos()), ElemBytes: elemBytes(u.Elem())}
+		if c.allocHook != nil {
+			rec.Tight = c.allocHook(st, cp.T, x.Pos())
+		}
+		c.allocs = append(c.allocs, rec)
 		if isByte(u.Elem()) {
 			rg := c.newRegion(st, "make")
 			// make zeroes memory
@@ -267,6 +271,7 @@ func (c *Ctx) makeCall(x *ast.CallExpr, st *State) Val {
 
 type AllocRec struct {
 	Size, Guard, Pos string
+	Tight            string // a stronger bound supplied by the family engine (record-local), "" if none
 	ElemBytes        int
 }
 
@@ -716,6 +721,15 @@ func (c *Ctx) abstractCall(x *ast.CallExpr, fn *types.Func, st *State) []Val {
 	}
 	for _, a := range x.Args {
 		args = append(args, c.eval(a, st))
+	}
+	if fn == nil {
+		// a call through a function value kept in a package-level variable: code that cannot be seen from here, so for
+		// the write frame it may store anywhere (a memo captured by a closure, for instance)
+		if id, ok := ast.Unparen(x.Fun).(*ast.Ident); ok {
+			if v, ok := c.info.Uses[id].(*types.Var); ok && v.Pkg() != nil && v.Parent() == v.Pkg().Scope() {
+				c.stores = append(c.stores, StoreRec{Key: "fld:*(call through the package-level function value " + id.Name + ")", Ref: "unknown", Guard: st.guard, Pos: c.pos(x.Pos())})
+			}
+		}
 	}
 	pure := fn != nil && fn.Pkg() != nil && purePkgs[fn.Pkg().Path()]
 	if pure {
